@@ -261,7 +261,8 @@ ImplCall ==
       e1 == IF ~c.mt_p /\ ~np /\ ~D("nomime_default") THEN "TypeError" ELSE ""
       e2 == IF np THEN (IF HasNewline(CdText(c)) THEN "ValueError" ELSE "")
             ELSE IF c.att /\ ~D("att_ignored") THEN "TypeError" ELSE ""
-      e3 == IF ~xa /\ IsTextKind(c) /\ ~D("text_accepted") THEN "ValueError" ELSE ""
+      e3 == IF xa THEN (IF HasNewline(c.path) THEN "ValueError" ELSE "")
+            ELSE IF IsTextKind(c) /\ ~D("text_accepted") THEN "ValueError" ELSE ""
       exc0 == IF c.api = "sfd" /\ ~c.exists THEN (IF D("sfd_nocheck") THEN "FileNotFoundError" ELSE "NotFound")
               ELSE IF e1 # "" THEN e1 ELSE IF e2 # "" THEN e2 ELSE e3
       reads == ~xa \/ D("xsf_reads")
@@ -281,7 +282,8 @@ ImplCall ==
   IF exc0 # "" THEN [BlankObs EXCEPT !.exc = exc0, !.status = IF exc0 = "NotFound" THEN 404 ELSE 0]
   ELSE IF raised416 THEN
        [base EXCEPT !.exc = "RequestedRangeNotSatisfiable", !.body = <<>>,
-                    !.open_now = IF D("open416") THEN opened ELSE 0, !.user_open = FALSE]
+                    !.open_now = IF D("open416") THEN opened ELSE 0, !.open_end = IF D("open416") THEN opened ELSE 0,
+                    !.user_open = FALSE, !.user_closed = ~IsPathKind(c)]
   ELSE WithHd([base EXCEPT !.open_now = opened, !.user_open = ~IsPathKind(c)],
               Hd(TRUE, ImplType),
               Hd(np, CdText(c)),
